@@ -94,6 +94,19 @@ func c06Run(c C06Case, limit int64) (*h.Obs, int, string) {
 		in.WriteString("RCPT TO:<okprobe@x>\r\nNOOP\r\n")
 		nCmd = 4
 	}
+	// every conversation ends with a second transaction whose message is exactly as large as the limit
+	// allows (via the other transfer command): the budget of a transaction must not survive it
+	if c.Kind != "size" && c.N >= 2 && c.N <= 100 {
+		in.WriteString("RSET\r\nMAIL FROM:<ok@a2.example>\r\nRCPT TO:<ok@b2.example>\r\n")
+		if c.Kind == "data" {
+			fmt.Fprintf(&in, "BDAT %d LAST\r\n%s", c.N, strings.Repeat("s", int(c.N)))
+		} else {
+			_, w2 := dataMessage(int(c.N), false)
+			in.WriteString("DATA\r\n")
+			in.Write(w2)
+		}
+		in.WriteString("NOOP\r\n")
+	}
 	var segs [][]byte
 	if c.PerOct {
 		segs = h.PerOctet(in.Bytes())
@@ -150,6 +163,28 @@ func evalC06(c C06Case) *h.Finding {
 		return nil
 	}
 	codes := o.Codes()
+	// the second transaction (see c06Run): RSET MAIL RCPT [DATA 354] final NOOP, all positive
+	if c.Kind != "size" && c.N >= 2 && c.N <= 100 {
+		nTail := 5
+		if c.Kind == "bdat" {
+			nTail = 6
+		}
+		if len(o.Replies) < nTail {
+			return h.F("c06-second-transaction", "%s: replies %s", desc, codes)
+		}
+		tail := o.Replies[len(o.Replies)-nTail:]
+		for i, r := range tail {
+			ok := r.Code == 250
+			if c.Kind == "bdat" && i == 3 {
+				ok = r.Code == 354
+			}
+			if !ok {
+				return h.F("c06-second-transaction", "%s: after the refused message a second transaction with a message of exactly N octets was not accepted: replies %s", desc, codes)
+			}
+		}
+		o.Replies = o.Replies[:len(o.Replies)-nTail]
+		codes = o.Codes()
+	}
 	switch c.Kind {
 	case "size":
 		// 220 250 552 5xx(RCPT without MAIL) 250
@@ -163,7 +198,7 @@ func evalC06(c C06Case) *h.Finding {
 		}
 	case "data":
 		for _, e := range o.Trace {
-			if (e.Kind == "Data" || e.Kind == "LMTPData") && (e.ReadErr == "EOF" || e.ReadErr == "stopped") {
+			if (e.Kind == "Data" || e.Kind == "LMTPData") && e.From == "ok@a.example" && (e.ReadErr == "EOF" || e.ReadErr == "stopped") {
 				return h.F("c06-over-limit-eof", "%s: reader of an over-limit message ended with %s after %d octets", desc, e.ReadErr, len(e.Body))
 			}
 			if e.Kind == "Rcpt" && e.Arg == "okprobe@x" {
@@ -176,7 +211,7 @@ func evalC06(c C06Case) *h.Finding {
 		}
 	case "bdat":
 		for _, e := range o.Trace {
-			if (e.Kind == "Data" || e.Kind == "LMTPData") && e.ReadErr == "EOF" {
+			if (e.Kind == "Data" || e.Kind == "LMTPData") && e.From == "ok@a.example" && e.ReadErr == "EOF" {
 				return h.F("c06-over-limit-eof", "%s: reader of an over-limit message ended with EOF after %d octets", desc, len(e.Body))
 			}
 			if e.Kind == "Rcpt" && e.Arg == "okprobe@x" {
